@@ -7,36 +7,13 @@ Open Scope N_scope.
 (** ** classes of configurations (StorageLayout::new) *)
 
 Definition is_absent (v : jv) : bool := match v with JAbsent => true | _ => false end.
-Definition num_above (k : N) (v : jv) : bool := match v with JNum n => k <? n | _ => false end.
 
-(** c11-cfg-bounds: 0003/0004 document "An integer between 0 and 32 inclusive" for
-    tupleSize and numberOfTuples; layout.rs:227-267 never checks the upper bound
-    (validate_tuple_config only couples the zeros, validate_digest_algorithm only
-    bounds the product), so e.g. tupleSize 33 / numberOfTuples 1 or 1 x 64 is accepted;
-    with huge numbers the usize product overflows (panic in debug builds). *)
-Definition c11_cfg_bounds (e : ext) (r : raw) : bool :=
-  match e, r with
-  | (E0003 | E0004), RawObj o => num_above 32 (r_ts o) || num_above 32 (r_nt o)
-  | _, _ => false
-  end.
-
-(** c11-cfg-short-root: 0004 "If the product of tupleSize and numberOfTuples is equal
-    to the number of characters in the hex encoded digest, then shortObjectRoot MUST be
-    false"; not checked (layout.rs:227-240): every object root is then "<tuples>/" with
-    an empty directory name. *)
-Definition c11_cfg_short_root (e : ext) (r : raw) : bool :=
-  match e, r with
-  | E0004, RawObj o =>
-      match r_short o, get_alg (r_alg o), get_usize (r_ts o), get_usize (r_nt o) with
-      | JBool true, Ok a, Ok ts, Ok nt => negb (ts =? 0) && (ts * nt =? alg_hexlen a)
-      | _, _, _, _ => false
-      end
-  | _, _ => false
-  end.
+(** (c11-cfg-bounds and c11-cfg-short-root were known findings until the fixes d1aca14
+    and a91c61b in /repo; the configuration theorems now cover those configurations.) *)
 
 (** c11-cfg-0007-defaults: 0007 gives every parameter a default (delimiter ":"), but
     NTupleOmitPrefixLayoutConfig.delimiter has no serde default (layout.rs:189) and
-    NTupleOmitPrefixLayoutExtension::new refuses a missing config.json (569-573). *)
+    NTupleOmitPrefixLayoutExtension::new refuses a missing config.json (581-585). *)
 Definition c11_cfg_0007_defaults (e : ext) (r : raw) : bool :=
   match e, r with
   | E0007, RawNone => true
@@ -50,7 +27,7 @@ Definition c11_cfg_0007_defaults (e : ext) (r : raw) : bool :=
 Definition c11_cfg_array (r : raw) : bool := match r with RawSeq _ => true | _ => false end.
 
 Definition known_c11_cfg (e : ext) (r : raw) : bool :=
-  c11_cfg_bounds e r || c11_cfg_short_root e r || c11_cfg_0007_defaults e r || c11_cfg_array r.
+  c11_cfg_0007_defaults e r || c11_cfg_array r.
 
 (** NOT a finding but a hole in the documents: none of the five says whether the key
     extensionName may be omitted.  rocfl requires it for 0006/0007 (serde "missing
@@ -64,14 +41,11 @@ Definition cfg_determined (e : ext) (r : raw) : bool :=
 
 (** ** classes of (configuration, id) pairs (map_object_id) *)
 
-(** c11-0003-zero-tuples: with tupleSize = numberOfTuples = 0 the document (Example 3
-    and Procedure steps 5-6) puts the object in the percent-encoded encapsulation
-    directory directly under the storage root; layout.rs:481-483 returns the digest. *)
-Definition c11_0003_zero_tuples (c : cfg) : bool :=
-  match c_ext c with E0003 => c_ts c =? 0 | _ => false end.
+(** (c11-0003-zero-tuples and c11-0007-control-chars were known findings until the fixes
+    e1de1bb and 970818d in /repo; the mapping theorems now cover those ids.) *)
 
 (** The case mapping is "regular" for a delimiter and an id when the byte arithmetic of
-    layout.rs:538-558 / 601-619 is sound:
+    layout.rs:550-570 / 614-632 is sound:
     - delimiter with case: str::to_lowercase of id and delimiter is the concatenation of
       the per-character lower-case forms (false for a final capital sigma), every
       lower-case form is ONE scalar value, and for the id it has the SAME UTF-8 length
@@ -89,21 +63,11 @@ Definition case_regular (d id : ustr) : bool :=
       Bool.eqb (bytes_eqb (u_low u) (u_low v)) (bytes_eqb (u_orig u) (u_orig v))) (us_chars d)) (us_chars id).
 
 (** c11-casefold-index: 0006/0007 search the delimiter in object_id.to_lowercase() and
-    apply the byte index to the original id (layout.rs:545-554, 607-616) *)
+    apply the byte index to the original id (layout.rs:557-566, 620-629) *)
 Definition c11_casefold (c : cfg) (id : ustr) : bool :=
   match c_ext c with
   | E0006 | E0007 => negb (case_regular (c_delim c) id)
   | _ => false
   end.
 
-(** c11-0007-control-chars: 0007 "is defined over the ASCII subset of UTF-8 (code points
-    0x20 to 0x7F). Any character outside of this range in either an identifier or a path
-    is an error"; layout.rs:595 only tests is_ascii(), so U+0000-U+001F pass. *)
-Definition c11_0007_ctrl (c : cfg) (id : ustr) : bool :=
-  match c_ext c with
-  | E0007 => existsb (fun ch => code ch <? 32) (us_bytes id)
-  | _ => false
-  end.
-
-Definition known_c11 (c : cfg) (id : ustr) : bool :=
-  c11_0003_zero_tuples c || c11_casefold c id || c11_0007_ctrl c id.
+Definition known_c11 (c : cfg) (id : ustr) : bool := c11_casefold c id.
